@@ -63,3 +63,35 @@ func VP_C10_parsers_extreme() {
 	vpReach("done")
 	vpAssert(true, "parser-returned")
 }
+
+
+//vp:property C10 C06
+//vp:set maxalloc 70000 70000
+//vp:set loopmax 400000 400000
+//vp:bounds the largest DATA packets: declared payload length 65533 / 65534 / 65535 with the payload fully carried (first and last byte symbolic) plus 0 or 1 surplus bytes, through the packet loop with an open channel
+//vp:reach relayed
+func VP_C10_data_largest() {
+	vpResetC01()
+	n := []int{65533, 65534, 65535}[vpIntRange("declared", 0, 2)]
+	pl := make([]byte, n+vpIntRange("surplus", 0, 1))
+	for i := range pl {
+		pl[i] = 0x3C
+	}
+	pl[0], pl[n-1] = vpU8("first"), vpU8("last")
+	tr := &vpTransport{in: [][]byte{vpPacket(0xA, append([]byte{byte(n), byte(n >> 8)}, pl...))}}
+	rwc := &vpConn{block: true}
+	tun := &Tunnel{transportIn: tr, transportOut: tr, User: vpUser(), rwc: rwc}
+	p := NewProcessor(&Gateway{}, tun)
+	p.state = SERVER_STATE_CHANNEL_CREATE
+	p.Process(vpCtx())
+	vpDropTasks()
+	vpReach("relayed")
+	total := 0
+	for _, w := range rwc.written {
+		total += len(w)
+	}
+	vpAssert(total == n, "host-receives-exactly-the-declared-payload")
+	if total == n && len(rwc.written) == 1 {
+		vpAssert(rwc.written[0][0] == pl[0] && rwc.written[0][n-1] == pl[n-1], "payload-bytes-unchanged")
+	}
+}
